@@ -29,7 +29,7 @@ Outs == {"default", "explicit_same", "explicit_other"}
 \* what the output path holds before the run: nothing, unrelated shorter / longer text, an empty file, the beginning of
 \* what is about to be written, or that text followed by more (the last three look "almost up to date")
 Pres == {"absent", "shorter", "longer", "empty", "prefix_of_new", "new_plus_tail"}
-Fails == {"none", "missing_input", "bad_xml", "unresolved_import", "unsupported_binding", "reachable_unreadable", "out_dir_missing"}
+Fails == {"none", "missing_input", "bad_xml", "unresolved_import", "unsupported_binding", "unsupported_binding_parts", "reachable_unreadable", "out_dir_missing"}
 \* how the files of the input directory are stored: all regular files, the imported sibling a symbolic link to a regular
 \* file kept elsewhere, or the input itself such a link.  The CONTENTS of the directory are the same in all three, so
 \* nothing below depends on `sib` - which is the statement "the result depends on file contents only".
@@ -43,7 +43,7 @@ Scenarios == {s \in [spelling : Spellings, out : Outs, pre : Pres, fail : Fails,
 \* which stage a failure class strikes
 FailStage(f) == CASE f = "missing_input" -> "locate"
                   [] f = "reachable_unreadable" -> "scan"
-                  [] f \in {"bad_xml", "unresolved_import", "unsupported_binding"} -> "read"
+                  [] f \in {"bad_xml", "unresolved_import", "unsupported_binding", "unsupported_binding_parts"} -> "read"
                   [] f = "out_dir_missing" -> "create"
                   [] OTHER -> "never"
 Order == IF "D02" \in Dev THEN <<"locate", "scan", "create", "read", "write">>
